@@ -12,6 +12,10 @@ This private submodule is *not* intended for importation by downstream callers.
 '''
 
 # ....................{ IMPORTS                            }....................
+from beartype.typing import (
+    Callable,
+    Dict,
+)
 from beartype._decor._nontype._api.external.decorclick import (
     beartype_click_command)
 from beartype._decor._nontype._builtin.decorbuiltindescriptor import (
@@ -61,7 +65,23 @@ See Also
 '''
 
 
-MODULE_TO_SUPERTYPE_NAME_TO_BEARTYPE_DECORATOR = {
+MODULE_TO_SUPERTYPE_NAME_TO_BEARTYPE_DECORATOR: Dict[str, Dict[str, Callable]] = {
+    # ....................{ BUILTIN                        }....................
+    # Subclasses of the builtin class and static method decorator types (e.g.,
+    # the standard "abc.abstractclassmethod" and "abc.abstractstaticmethod").
+    # The exact dispatch table above matches only the builtin types themselves;
+    # without these entries, an instance of a "classmethod" subclass is rejected
+    # as "uncallable" and an instance of a "staticmethod" subclass is mistaken
+    # for a pseudo-callable and replaced by a plain function. The decorator
+    # below re-wraps the checked wrappee in "descriptor.__class__" and thus
+    # preserves the subclass.
+    'builtins': {
+        'classmethod': (
+            beartype_descriptor_decorator_builtin_class_or_static_method),
+        'staticmethod': (
+            beartype_descriptor_decorator_builtin_class_or_static_method),
+    },
+
     # ....................{ THIRD-PARTY                    }....................
     # Non-standard types declared by external third-party packages.
 
